@@ -1105,6 +1105,46 @@ Section WriteProofs.
     - exists don, eo'. split; [exact Hks|]. split; [exact Hg'|]. simpl. discriminate.
   Qed.
 
+  Lemma ws_write_chunks_eq M c fuel k s data :
+    ws_write_chunks estate ecall M c fuel k s data =
+    if M <? len data then
+      match c with
+      | O => WErr _ true
+      | S c' => match ws_write fuel k s (takeN M data) with
+                | WOk _ s' => ws_write_chunks estate ecall M c' fuel k s' (dropN M data)
+                | WErr _ h => WErr _ h
+                end
+      end
+    else ws_write fuel k s data.
+  Proof. destruct c; reflexivity. Qed.
+
+  Lemma ws_write_chunks_ok k M : 1 <= M -> forall c s pd ci d, (length d <= c)%nat -> wtop k s pd ci ->
+    exists f0 s', (forall fuel, (f0 <= fuel)%nat -> ws_write_chunks estate ecall M c fuel k s d = WOk _ s') /\ wtop k s' pd (ci ++ d).
+  Proof.
+    intros HM. induction c as [|c IH]; intros s pd ci d Hc Ht.
+    - destruct d; [|simpl in Hc; lia].
+      destruct (ws_write_ok k s pd ci [] Ht) as [f0 [s' [HW Ht']]].
+      exists f0, s'. split; [|exact Ht']. intros fuel Hf. rewrite ws_write_chunks_eq.
+      destruct (M <? len (@nil Z)) eqn:E; [apply N.ltb_lt in E; rewrite len_nil in E; lia|].
+      apply HW. exact Hf.
+    - destruct (M <? len d) eqn:E.
+      + assert (E' : M < len d) by (apply N.ltb_lt; exact E).
+        destruct (ws_write_ok k s pd ci (takeN M d) Ht) as [f1 [s1 [HW1 Ht1]]].
+        assert (Hl : (length (dropN M d) <= c)%nat).
+        { pose proof (len_dropN M d) as LD. unfold len in LD, E'. lia. }
+        destruct (IH s1 pd (ci ++ takeN M d) (dropN M d) Hl Ht1) as [f2 [s' [HW2 Ht']]].
+        exists (Nat.max f1 f2), s'. split.
+        * intros fuel Hf. rewrite ws_write_chunks_eq. rewrite E.
+          assert (Hf1 : (f1 <= fuel)%nat) by lia. assert (Hf2 : (f2 <= fuel)%nat) by lia.
+          rewrite (HW1 fuel Hf1). apply HW2. exact Hf2.
+        * rewrite <- app_assoc in Ht'. rewrite takeN_dropN in Ht'. exact Ht'.
+      + destruct (ws_write_ok k s pd ci d Ht) as [f0 [s' [HW Ht']]].
+        exists f0, s'. split; [|exact Ht']. intros fuel Hf. rewrite ws_write_chunks_eq, E. apply HW. exact Hf.
+  Qed.
+
+  Lemma kSizeMax_pos : 1 <= kSizeMax.
+  Proof. unfold kSizeMax. discriminate. Qed.
+
   Lemma ws_flush_ok k s pd ci : k <> KXz -> wtop k s pd ci ->
     exists f0 s', (forall fuel, (f0 <= fuel)%nat -> ws_flush fuel k s = WOk _ s') /\
                   wtop k s' (pd ++ ci) [] /\ w_dirty _ s' = false.
@@ -1136,10 +1176,11 @@ Section WriteProofs.
     - exists 0%nat, s, pd, ci. split; [intros; reflexivity|]. split; [exact Ht|].
       unfold write_plain. simpl. rewrite app_nil_r. reflexivity.
     - destruct op as [d|].
-      + destruct (ws_write_ok k s pd ci d Ht) as [f1 [s1 [HW1 Ht1]]].
+      + destruct (ws_write_chunks_ok k kSizeMax kSizeMax_pos (length d) s pd ci d (le_n _) Ht) as [f1 [s1 [HW1 Ht1]]].
         destruct (IH s1 pd (ci ++ d) Ht1) as [f2 [s' [pd' [ci' [HW2 [Ht' He]]]]]].
         exists (Nat.max f1 f2), s', pd', ci'. split; [|split; [exact Ht'|]].
-        * intros fuel Hfu. cbn [CompressDefs.run_ops]. rewrite (HW1 fuel ltac:(lia)). apply HW2. lia.
+        * intros fuel Hfu. cbn [CompressDefs.run_ops]. unfold CompressDefs.ws_write_full.
+          rewrite (HW1 fuel ltac:(lia)). apply HW2. lia.
         * rewrite He. unfold write_plain. simpl. rewrite !app_assoc. reflexivity.
       + destruct (ws_flush_ok k s pd ci Hk Ht) as [f1 [s1 [HW1 [Ht1 _]]]].
         destruct (IH s1 (pd ++ ci) [] Ht1) as [f2 [s' [pd' [ci' [HW2 [Ht' He]]]]]].
